@@ -143,7 +143,7 @@ func (h *H) checkQR(id string, seedIdx, m, n int, cls string, deep bool) {
 			cs.band(r.routine, tag, "qr-orthogonality", ref.OrthoResid(q), float64(order)*eps, func() string { return what })
 			t := triFactor(qk.kind, f)
 			resid := ref.MaxDiff(a, reconstructQR(qk.kind, q, t))
-			cs.band(r.routine, tag, "qr-reconstruction", resid, float64(order)*eps*anorm, func() string { return what })
+			cs.band(r.routine, tag, "qr-reconstruction", resid, float64(order)*(eps*anorm+subFloor), func() string { return what })
 			results = append(results, qrResult{r.routine + " " + tag + " " + r.cf.String(), f, tau})
 		}
 		// Differential: Householder QR with the LAPACK sign convention is
